@@ -56,7 +56,7 @@ fn discrete_decls(r: &mut Rng, n: usize, with_real: bool) -> Vec<VarDecl> {
 }
 
 pub fn program(r: &mut Rng, with_real: bool) -> (Model, String) {
-    let cfg = ModelCfg { max_vars: 3, depth: 2, logic: true, piecewise: true, unbounded: false, fractional: false, strict_cmp: false, hostile: false };
+    let cfg = ModelCfg { max_vars: 3, depth: if r.chance(1, 2) { 2 } else { 3 }, logic: true, piecewise: true, unbounded: false, fractional: false, strict_cmp: false, hostile: false };
     let nv = 1 + r.below(3);
     let ds = discrete_decls(r, nv, with_real);
     let (m, _) = gen_model::model_with(r, &cfg, ds);
@@ -72,8 +72,14 @@ pub fn one(m: &Model, text: &str, tag: &str) -> Case {
     let out = solve_text(text);
     c.imp = out.clone();
     c.show = text.replace('\n', " ; ");
+    // the compiler half of the pipeline is also diffed against the composed Lean model (bounds + linearizer ports)
+    if let Ok(parsed) = rooc::RoocParser::new(text.to_string()).parse_and_transform(vec![], &indexmap::IndexMap::new()) {
+        c.req = format!("linearize-full {} {}", sx::model(&parsed), sx::num(1e-9));
+        c.imp = match rooc::Linearizer::linearize(parsed) { Ok(lm) => format!("(ok {})", sx::lin_model(&lm)), Err(e) => crate::props::c01::lin_error(&e) };
+        c.tags.push("compiled-diff".into());
+    }
     c.oracle = format!("ref {} {}", sx::model(m), out);
-    c.tags = vec![tag.into(), out.trim_start_matches('(').split(|ch| ch == ' ' || ch == ')').next().unwrap_or("").to_string()];
+    c.tags.extend(vec![tag.into(), out.trim_start_matches('(').split(|ch| ch == ' ' || ch == ')').next().unwrap_or("").to_string()]);
     c.nontrivial = out.starts_with("(solution") || out.starts_with("(infeasible");
     let mut fl = crate::props::c01::flags(m);
     if m.domain().values().all(|d| !d.is_used()) { fl.push("no-used-variables".into()); }
